@@ -6,6 +6,7 @@ import KyupyVerif.Proofs.VerilogLibFit
 import KyupyVerif.Proofs.FormatEquiv
 import KyupyVerif.Proofs.FormatEquiv2
 import KyupyVerif.Proofs.FormatEquiv3
+import KyupyVerif.Proofs.FormatEquiv4
 /-! # C11 (capstone) — structural Verilog over a CELL LIBRARY: text → parse → `resolve_tlib_cells` → `SimOps` → `LogicSim`
 computes the DATASHEET denotation of the module
 
@@ -705,8 +706,10 @@ no operand is a constant literal.  Combinational AND sequential kinds (`DFF`, la
   the simulation statement with hypotheses on the description and the two schedules only;
   `bench_verilog_equiv_layouts` — statement order and grouping do not matter: any bench statement list with the same `benchGates` /
   `benchPorts` and any module body with the same `sigDecls` / `vInsts` / assign pairs have the same models and observations.
-* **Hypotheses that remain**: `commonNlB` resp. `closedNlB`; with branch forks (`cfg.bf = true`) `verilogOKB` of the rendering is a
-  hypothesis of `bench_verilog_sim_equiv` (evaluated, not derived: the branch-fork names `stem~inst/pin` must be new); the scheduling
+  `renderings_build_branchforks` — with `closedBfNlB` (= `closedNlB` and the branch-fork names `stem~inst/pin`, one per input
+  connection, are pairwise different and no gate name / input port; Proofs/FormatEquiv4.lean) `verilogOKB` holds for EVERY parser
+  configuration, `branchforks=True` included; a name containing `~` can be outside (kernel-checked example).
+* **Hypotheses that remain**: `commonNlB` resp. `closedNlB` / `closedBfNlB` (all about the description only); the scheduling
   hypotheses of the two end-to-end theorems (`orderOKB`, `forksOKB`, `linesDrivenB` for each parsed circuit and its order).
 * **Correspondence / oracle**: the renderings `benchOf` / `verilogOf` are CANONICAL (one statement per port, ports first; pin names
   `o`, `i0`…`i3`); the harness renders the same netlist with shuffled statements, grouped interface statements, renamed signals, kind
@@ -940,6 +943,24 @@ theorem bench_verilog_sim_equiv8 (cfg : Cfg) (nl : Nl) (hc : commonNlB nl = true
   subst he
   rw [hcapB, hcapV]
   exact bench_verilog_captures_equiv nl hcn _ prim8 σV
+
+/-- **… with branch forks too**: `closedBfNlB` = `closedNlB` and the branch-fork names `stem~inst/pin` the reader pass makes
+(`nl.branchNames`: one per input connection) are pairwise different and no gate name / input port — then the Verilog rendering is
+inside the fragment for EVERY parser configuration, `branchforks=True` included -/
+theorem renderings_build_branchforks (cfg : Cfg) (nl : Nl) (h : closedBfNlB nl = true) :
+    verilogOKB cfg primTL nl.portNames (verilogOf nl) = true :=
+  verilogOK_verilogOf_any cfg nl h
+
+/-- the example description has fresh branch-fork names: `a~g1/i0`, `b~g1/i1`, `n~f/i0`, `q~g2/i0`, `a~g2/i1`, `b~g2/i2` -/
+example : closedBfNlB exNl = true ∧ exNl.branchNames = ["a~g1/i0", "b~g1/i1", "n~f/i0", "q~g2/i0", "a~g2/i1", "b~g2/i2"] := by
+  decide +kernel
+
+/-- a description whose signal names contain `~` can be outside: the gate name `a~g/i0` IS the branch-fork name of pin `i0` of `g` -/
+example : closedNlB ⟨[(false, "a"), (true, "y")], [⟨"a~g/i0", "BUF", "g", ["a"]⟩, ⟨"y", "NOT", "h", ["a~g/i0"]⟩]⟩ = true ∧
+    closedBfNlB ⟨[(false, "a"), (true, "y")], [⟨"a~g/i0", "BUF", "g", ["a"]⟩, ⟨"y", "NOT", "h", ["a~g/i0"]⟩]⟩ = false ∧
+    verilogOKB { bf := true } primTL ["a", "y"]
+      (verilogOf ⟨[(false, "a"), (true, "y")], [⟨"a~g/i0", "BUF", "g", ["a"]⟩, ⟨"y", "NOT", "h", ["a~g/i0"]⟩]⟩) = false := by
+  decide +kernel
 
 end FormatEquiv
 
